@@ -33,7 +33,7 @@ ASSUMPTIONS = [
   "aliasing rule: if two instances under one top are given the same module name, the texts obtained by translating each of them alone must be identical "
   "(module header line excluded); in addition the pair design is executed with the E3 interpreter and compared with PyMTL on 12 input values",
   "the catalogue is fixed (vt/checks/c13_designs.py, 51 entries -> 1326 unordered pairs incl. the diagonal in the quick tier, 2601 ordered pairs in the thorough tier); both backends",
-  "thorough tier: 16 hash seeds and every fourth design of the E2 families added to the determinism catalogue",
+  "thorough tier: 16 hash seeds and every fourth design of the E2 families added to the determinism catalogue; every ordered pair also with the first instance wrapped one level deeper",
 ]
 
 
@@ -42,6 +42,25 @@ def pair_class(fa, fb):
     def construct(s):
       super().construct(fa, fb)
   return PairTop
+
+
+_wrap_classes = {}
+
+
+def wrapped_pair_class(la, fa, lb, fb):
+  """thorough tier: the first instance sits one level deeper (inside a wrapper component with its own class per catalogue entry),
+  so that the two colliding definitions are met at different depths of the post-order translation"""
+  from pymtl3 import Component, InPort, OutPort, Bits8
+  if la not in _wrap_classes:
+    def construct(s, _fa=fa):
+      s.in_ = InPort(Bits8)
+      s.out = OutPort(Bits8)
+      s.x = _fa()
+      s.x.in_ //= s.in_
+      s.out //= s.x.out
+    _wrap_classes[la] = type(f"Wrap{len(_wrap_classes)}", (Component,), {"construct": construct})
+  W = _wrap_classes[la]
+  return pair_class(lambda: W(), fb)
 
 
 def body_of(text, top):
@@ -65,11 +84,11 @@ def standalone(label, factory, backend, cache):
 VECS = (0, 1, 2, 7, 8, 15, 16, 100, 127, 128, 200, 255)
 
 
-def check_pair(la, fa, lb, fb, backend, acc, cache):
+def check_pair(la, fa, lb, fb, backend, acc, cache, wrapped=False):
   from pymtl3 import DefaultPassGroup
-  case = dict(kind="pair", a=la, b=lb, backend=backend)
+  case = dict(kind="pair", a=la, b=lb, backend=backend, wrapped=wrapped)
   tag = f"{_cls(la)}|{_cls(lb)}"
-  cls = pair_class(fa, fb)
+  cls = wrapped_pair_class(la, fa, lb, fb) if wrapped else pair_class(fa, fb)
   try:
     text, top = trcheck.translate(cls, backend)
   except Exception as ex:
@@ -100,6 +119,8 @@ def check_pair(la, fa, lb, fb, backend, acc, cache):
     return
   names = {iname: mod for mod, iname, conns in des.mods[top]["insts"]}
   na, nb = names.get("a"), names.get("b")
+  if wrapped and na in des.mods:
+    na = {iname: mod for mod, iname, conns in des.mods[na]["insts"]}.get("x")
   for n in (na, nb):
     if n is None or not re.fullmatch(r"[A-Za-z_][A-Za-z0-9_$]*", n):
       acc.violation(f"{backend}:pair:illegal-module-name:{tag}", case, "legal identifier", n, f"{la} + {lb}")
@@ -247,6 +268,9 @@ def run_shard(shard, tier, seed):
     for j in range(i if tier == "quick" else 0, len(cat)):   # thorough: ordered pairs (which instance is translated first matters to "first definition wins")
       check_pair(cat[i][0], cat[i][1], cat[j][0], cat[j][1], backend, acc, cache)
       acc.count("pairs")
+      if tier != "quick":
+        check_pair(cat[i][0], cat[i][1], cat[j][0], cat[j][1], backend, acc, cache, wrapped=True)
+        acc.count("pairs")
     if i % 9 == 0: acc.sample(dict(kind="pair", a=cat[i][0], b=cat[(i + 3) % len(cat)][0], backend=backend))
   elif kind == "det":
     check_det(acc, tier)
@@ -261,7 +285,7 @@ def replay(case):
   acc = Acc()
   if case.get("kind") == "pair":
     cat = dict(D.catalogue())
-    check_pair(case["a"], cat[case["a"]], case["b"], cat[case["b"]], case["backend"], acc, {})
+    check_pair(case["a"], cat[case["a"]], case["b"], cat[case["b"]], case["backend"], acc, {}, wrapped=case.get("wrapped", False))
   elif case.get("kind") == "setparam":
     check_setparam(case["backend"], acc)
   elif case.get("kind") == "class":
